@@ -177,7 +177,8 @@ func genC02(t *rapid.T) c02Case {
 		c.Base = p
 		kind := rapid.SampledFrom([]string{"unterminated-action", "unterminated-action-empty", "unterminated-comment", "unterminated-string", "unterminated-rawstring", "unterminated-char",
 			"missing-end-if", "missing-end-range", "missing-end-block", "missing-end-try", "missing-end-yieldcontent", "surplus-end", "surplus-end-after-block",
-			"extends-after-text", "import-after-text", "extends-after-action", "import-after-action"}).Draw(t, "mistake")
+			"extends-after-text", "import-after-text", "extends-after-action", "import-after-action",
+			"stray-else-in-block", "stray-content-in-range", "stray-catch-outside-try", "stray-else-at-top", "stray-content-in-if"}).Draw(t, "mistake")
 		c.MustFail = kind
 		if c.Files == nil {
 			c.Files = map[string]string{}
@@ -211,6 +212,16 @@ func genC02(t *rapid.T) c02Case {
 			c.Src = header + p + end
 		case "surplus-end-after-block":
 			c.Src = header + L + "if x" + R + p + end + end
+		case "stray-else-in-block":
+			c.Src = header + L + "block zz()" + R + p + L + "else" + R + "x" + end
+		case "stray-content-in-range":
+			c.Src = header + L + "range x" + R + p + L + "content" + R + "x" + end
+		case "stray-catch-outside-try":
+			c.Src = header + p + L + "catch" + R + "x" + end
+		case "stray-else-at-top":
+			c.Src = header + p + L + "else" + R
+		case "stray-content-in-if":
+			c.Src = header + L + "if x" + R + p + L + "content" + R + "y" + end
 		case "extends-after-text":
 			c.Src = "text" + L + `extends "base.jet"` + R + p
 		case "import-after-text":
